@@ -79,6 +79,32 @@ def corpus_sources() -> List[Dict[str, Any]]:
     return out
 
 
+def layout_variants(rng: random.Random, scratch: Path, count: int) -> List[Dict[str, Any]]:
+    """small stl programs whose library tables land at DIFFERENT addresses (every corpus program starts with
+    stl.startup_and_init_all, which pins them): shared stl expressions resolve to other values from one program to the next."""
+    out = []
+    for k in range(count):
+        w = rng.choice([64, 64, 32])
+        filler = ';\n' * rng.choice([1, 2, 3, 7, 20, 64])
+        body = rng.choice(['stl.output "layout!\\n"\n', 'hex.print_as_digit v, 0\n', 'hex.add 2, v, v\nhex.print_as_digit v, 0\n'])
+        inits = rng.choice(['hex.init\n', 'hex.init\nstl.ptr_init\n', 'stl.ptr_init\nhex.init\n'])
+        text = f'stl.startup\n;fjv_go\n{filler}fjv_go:\n;fjv_after\n{inits}fjv_after:\n{body}stl.loop\nv: hex.vec 2, 0x35\n'
+        path = scratch / f'layout{k}.fj'
+        path.write_text(text)
+        out.append({'files': [str(path)], 'w': w, 'stl': True, 'name': f'layout-variant-{k}'})
+    return out
+
+
+def late_failure(rng: random.Random, src: Dict[str, Any], scratch: Path, index: int) -> Dict[str, Any]:
+    """a REAL program (stl and all) that fails only in the last stage, after its shared expressions were resolved."""
+    tail = rng.choice([';fjverif_never_declared_label\n', 'fjverif_l0:\n;1/(fjverif_l0-fjverif_l0)\n', 'segment 0\n;\n;\n',
+                       'wflip fjverif_never_declared_label, 1\n', 'fjverif_l1:\n;1<<(fjverif_l1-fjverif_l1-1)\n'])
+    path = scratch / f'late{index}.fj'
+    path.write_text(tail)
+    return dict(src, files=list(src['files']) + [str(path)], werror=rng.random() < 0.5, version=rng.randrange(4),
+                name='fail:last-stage-after-' + str(src.get('name', 'program')))
+
+
 class Judge:
     def __init__(self, journal: Any, workdir: Path):
         self.journal = journal
@@ -154,6 +180,8 @@ def history_item(rng: random.Random, sources: List[Dict[str, Any]], scratch: Pat
         stl = rng.random() < 0.4
         return {'files': [str(path)], 'w': 64 if stl else case['w'], 'stl': stl, 'werror': True, 'name': 'fail:' + case['class'],
                 'max_recursion_depth': case.get('max_recursion_depth')}
+    if r < 0.68:
+        return late_failure(rng, rng.choice(sources), scratch, index)
     if r < 0.8:
         prog = primgen.generate(rng, flaws=rng.random() < 0.3)
         path = scratch / f'gen{index}.fj'
@@ -172,7 +200,7 @@ def run_shard(spec: Dict[str, Any], journal: Any) -> Dict[str, Any]:
     scratch = workdir / 'src'
     scratch.mkdir(parents=True, exist_ok=True)
     judge = Judge(journal, workdir)
-    sources = corpus_sources()
+    sources = corpus_sources() + layout_variants(rng, scratch, 6)
     samples: List[Any] = []
     for index in range(spec['histories']):
         probe_src = rng.choice(sources)
@@ -180,6 +208,10 @@ def run_shard(spec: Dict[str, Any], journal: Any) -> Dict[str, Any]:
         history = [history_item(rng, sources, scratch, index * 20 + k) for k in range(rng.choice([1, 2, 3, 5, 8, 12]))]
         if rng.random() < 0.3:
             history.append(dict(probe))  # the very same program twice
+        if rng.random() < 0.3:  # the step right before the probe fails in the LAST stage, in a program of the probe's width
+            same_w = [s for s in sources if s['w'] == probe['w'] and s['stl'] == probe['stl']]
+            history.append(late_failure(rng, rng.choice(same_w), scratch, index * 20 + 19))
+            judge.count('probe_right_after_a_last_stage_failure')
         journal.note({'probe': probe, 'history': history})
         fresh = judge.fresh(probe)
         if fresh is None or not fresh['ok']:
